@@ -13,7 +13,7 @@ PROPERTY_TASKS = {
             "C07/connect", "C07/disconnect", "C07/remove", "C07/set_output", "C07/add[default]", "C07/add[uid]"],
     "C12": ["layer1/Circuit.type", "layer1/Circuit.is_output", "layer1/Circuit.nodes", "layer1/Circuit.edges", "layer1/Circuit.io",
             "layer1/Circuit.fanin", "layer1/Circuit.fanout", "layer1/Circuit.startpoints", "layer1/Circuit.endpoints",
-            "layer1/Circuit.inputs", "layer1/Circuit.outputs"],
+            "layer1/Circuit.inputs", "layer1/Circuit.outputs", "layer1/Circuit.transitive_fanin", "layer1/Circuit.transitive_fanout", "layer1/Circuit.is_cyclic"],
     "C01": ["C01/cnf", "C01/add_assumptions", "C01/solve[no assumptions]", "C01/solve[assumptions]"],
     "C04": ["C04/miter[self,default]", "C04/miter[pair,default]", "C04/miter[pair,explicit]", "C04/miter-encoding-lemma"],
     "C13": ["C13/clog2"],
@@ -71,7 +71,7 @@ TASK_FILES["C19"] = "circuitgraph/tx.py"
 
 L2_TASKS = ["layer2/add_subcircuit[no connections]", "layer2/add_subcircuit[no connections,literal name]", "layer2/add_subcircuit[no connections,strip_io=False]", "layer2/add_subcircuit[1 connection]"]
 L2_BB = ["layer2/add_blackbox[no connections]"]
-PROPERTY_TASKS["C06"] = L2_TASKS + L2_BB
+PROPERTY_TASKS["C06"] = L2_TASKS + L2_BB + ["C07/fill_blackbox on the body"]  # that task also carries the splice postconditions
 PROPERTY_TASKS["C07"] = PROPERTY_TASKS["C07"] + ["C07/add_blackbox", "C07/add_subcircuit[no connections]", "C07/add_subcircuit[1 connection]",
                                                  "C07/add_blackbox[connections] on the body", "C07/add_subcircuit[connections] on the body",
                                                  "C07/fill_blackbox on the body", "C07/set_output[list] on the body"]
